@@ -176,7 +176,7 @@ func parseParamValue(
 	input string, executeCommandSubstitution bool,
 ) ([]paramPair, error) {
 	paramRegex := regexp.MustCompile(
-		`(?:([^\s=]+)=)?("(?:\\"|[^"])*"|` + "`(" + `?:\\"|[^"]*)` + "`" + `|[^"\s]+)`,
+		`(?:([^\s="` + "`" + `]+)=)?("(?:\\"|[^"])*"|` + "`(" + `?:\\"|[^"]*)` + "`" + `|[^"\s]+)`,
 	)
 	matches := paramRegex.FindAllStringSubmatch(input, -1)
 
@@ -188,7 +188,9 @@ func parseParamValue(
 
 		if strings.HasPrefix(value, `"`) || strings.HasPrefix(value, "`") {
 			if strings.HasPrefix(value, `"`) {
-				value = strings.Trim(value, `"`)
+				// Remove the surrounding pair of quotes only: a value may
+				// itself begin or end with an (escaped) quote.
+				value = strings.TrimSuffix(strings.TrimPrefix(value, `"`), `"`)
 				value = strings.ReplaceAll(value, `\"`, `"`)
 			}
 
